@@ -201,17 +201,22 @@ def goodShape : Shape → Bool
   | .single | .singleSet | .listOfMaps | .listOfSets | .mergedSet => true
   | _ => false
 
+/-- the last entry of a mapping that names `to` (what the column holds in the end: later assignments win) -/
+def lastFrom : List (String × MapFrom) → String → Option MapFrom → Option MapFrom
+  | [], _, acc => acc
+  | (t, f) :: rest, to, acc => lastFrom rest to (if t == to then some f else acc)
+
 /-- the last cast into `attr` reads the current source map's `attr`, builds the class the target map declares for
-`attr`, and maps each key column to itself -/
+`attr`, names declared columns only, and (finally) maps each key column to itself -/
 def castStaticOk (T : Tables) (c : Conv) (attr : String) (keys : List String) : Bool :=
   match declaredCls T.mcs c attr, lastCast c attr with
   | some cls, some cc =>
     cc.cls == cls && cc.srcVar == curVar c && cc.srcAttr == attr &&
     (match findClass T.lcs cls with
      | some lc =>
-       keys.all (fun k => cc.mapping.lookup k == some (MapFrom.attr k)) &&
-       cc.mapping.all (fun p => (lc.props.map (·.1)).contains p.1) &&
-       (cc.mapping.map (·.1)).eraseDups.length == cc.mapping.length
+       keys.all (fun k => lastFrom cc.mapping k none == some (MapFrom.attr k)) &&
+       keys.all (fun k => ((schemaOf lc).map (·.1)).contains k) &&
+       cc.mapping.all (fun p => (lc.props.map (·.1)).contains p.1)
      | none => false)
   | _, _ => false
 
